@@ -37,6 +37,8 @@ class World:
                 nm = dotted(c.func)
                 if not nm:
                     continue
+                if False:
+                    pass
                 if scope is not None and isinstance(c.func, ast.Name):
                     for a in ast.walk(scope):
                         if isinstance(a, ast.Assign) and isinstance(a.value, ast.Lambda) and \
@@ -51,11 +53,25 @@ class World:
                     for r in ast.walk(fi.node):
                         if isinstance(r, ast.Return) and r.value is not None:
                             out |= self.constructed(fi.module, r.value, depth + 1, seen)
-                            # returned local: union of what was assigned to it
-                            if isinstance(r.value, ast.Name):
-                                for s in ast.walk(fi.node):
-                                    if isinstance(s, ast.Assign) and any(isinstance(t, ast.Name) and t.id == r.value.id for t in s.targets):
-                                        out |= self.constructed(fi.module, s.value, depth + 1, seen)
+                            # returned local: union of what was assigned to it (through local aliases)
+                            for v in self.local_values(fi.node, r.value):
+                                out |= self.constructed(fi.module, v, depth + 1, seen)
+        return out
+
+    @staticmethod
+    def local_values(scope, expr, depth=4):
+        """Expressions a local name may hold (assignments in `scope`, followed through aliases)."""
+        out = []
+        seen = set()
+        todo = [(expr, depth)]
+        while todo:
+            e, d = todo.pop()
+            if isinstance(e, ast.Name) and d > 0 and e.id not in seen:
+                seen.add(e.id)
+                for s in ast.walk(scope):
+                    if isinstance(s, ast.Assign) and any(isinstance(t, ast.Name) and t.id == e.id for t in s.targets):
+                        out.append(s.value)
+                        todo.append((s.value, d - 1))
         return out
 
     def _build(self):
@@ -82,10 +98,8 @@ class World:
                         continue
                     ks = self.constructed(fi.module, val, scope=fi.node)
                     # locals holding a constructed object: `lm = LMWrapper(...)` then `Decoder(..., lm, ...)` is followed by constructor-argument propagation below
-                    if isinstance(val, ast.Name):
-                        for a in ast.walk(fi.node):
-                            if isinstance(a, ast.Assign) and any(isinstance(t, ast.Name) and t.id == val.id for t in a.targets):
-                                ks |= self.constructed(fi.module, a.value)
+                    for v2 in self.local_values(fi.node, val):
+                        ks |= self.constructed(fi.module, v2, scope=fi.node)
                     if ks:
                         self.field_types.setdefault((cq, tgt), set()).update(ks)
                         todo.extend(ks)
@@ -107,10 +121,8 @@ class World:
                     binding = list(zip(params, c.args)) + [(k.arg, k.value) for k in c.keywords if k.arg]
                     for p, a in binding:
                         ks = self.constructed(fi.module, a)
-                        if isinstance(a, ast.Name):
-                            for s in ast.walk(fi.node):
-                                if isinstance(s, ast.Assign) and any(isinstance(t, ast.Name) and t.id == a.id for t in s.targets):
-                                    ks |= self.constructed(fi.module, s.value)
+                        for v2 in self.local_values(fi.node, a):
+                            ks |= self.constructed(fi.module, v2, scope=fi.node)
                         if not ks:
                             continue
                         for s in ast.walk(init.node):
